@@ -26,8 +26,9 @@ def compare(out, label, fa, fb):
                 ra.pop("route", None); rb.pop("route", None)
                 for i, (sa, sb) in enumerate(zip(ra["steps"], rb["steps"])):
                     n += 1
-                    if sa != sb and sa["c"] == sb["c"] and sa["r"]["o"] == sb["r"]["o"] != "ok" and sa["c"]["op"] in PARTIAL_OPS:
-                        # the same failing multi-entry call on both routes may leave different partial results (hash order):
+                    if sa != sb and sa["c"] == sb["c"] and sa["r"]["o"] not in ("ok", "panic") and sb["r"]["o"] not in ("ok", "panic") and sa["c"]["op"] in PARTIAL_OPS:
+                        # a failing multi-entry call may stop at a different entry on the two instances (hash order decides which
+                        # obstacle a traversal meets first: another error kind, another partial result):
                         # admissible for each route (judged by Trace_Vfs), but the two histories cannot be compared any further
                         out.cov["histories_cut_at_partial_result"] = out.cov.get("histories_cut_at_partial_result", 0) + 1
                         break
